@@ -248,6 +248,9 @@ def run(ck, tier):
     from ..share import import_findings as _imp3
     ck.rule('R19', 'the RTU frame length oracle sizes every reply correctly (byte counts up to 250 are unsigned) (shared with C03 R3)')
     _imp3(ck, 'C03', 'R19', ('R3',), 'a well-formed reply of a conformant server fails the frame check and the caller gets an error object', detail_prefixes=('rtuFrameSize-shape', 'size-from-buffered-length', 'custom-size-override', 'fifo-size', 'mei-size-shape', 'base-size-shape'))
+    ck.rule('R23', 'the reply picked up for the request is tested for truth before it is handed back (`if not response`): no response / exception class can be falsy (shared with C01 R14)')
+    _imp3(ck, 'C01', 'R23', ('R14',), 'a reply that did arrive (an exception reply, an empty read result) is discarded by the transaction manager and the caller is handed a generic error instead of the reply to its request',
+          detail_prefixes=('message-class-can-be-falsy',))
     ck.rule('R22', 'the reply is cut where ITS end delimiter is: header[len] of the delimiter framers is the position of the first end delimiter (shared with C03 R2) -- a late reply of another unit queued in front of the real one is a frame of its own')
     _imp3(ck, 'C03', 'R22', ('R2',), 'two replies that arrive in one read are taken for one frame, the check fails and the caller is handed an error instead of its reply', detail_prefixes=('header-len-source',))
     ck.rule('R20', 'an exchange that ended in a transport fault leaves no open connection behind: the reply that arrives late cannot be read as the answer to the next request (shared with C13 R4)')
